@@ -220,3 +220,19 @@ B('f_c13_named_result_consumed', ['C13'], 'R13.a',
              '        body_iter = response(environ, start_response)\n        return list(body_iter)\n'))
 B('f_c13_wrap_loop_sorted', ['C13'], 'R13.b',
   (A, '        for mw in reversed(all_mws):', '        for mw in all_mws[::-2]:'))
+
+# ---- C12 / R12.b: a piece of BoundRoute.__init__ moved into a private method that only __init__ calls ------------------
+_RES = ("        app_resources = getattr(app, 'resources', {})\n"
+        "        self.resources = dict(app_resources)\n"
+        "        self.resources.update(getattr(route, 'resources', {}))\n")
+_BIND = "    def bind(self, app, **kwargs):\n        return BoundRoute(self, app, **kwargs)\n"
+T('f_c12_ctor_part_method', ['C12'],
+  (R, _RES, "        self._collect_resources(route, app)\n"),
+  (R, _BIND, "    def _collect_resources(self, route, app):\n        def of(obj):\n            return getattr(obj, 'resources', {})\n"
+             "        self.resources = dict(of(app))\n        self.resources.update(of(route))\n\n" + _BIND))
+# ... the same method also reachable after construction: the route is no longer immutable
+B('f_c12_ctor_part_method_called_later', ['C12'], 'R12.b',
+  (R, _RES, "        self._collect_resources(route, app)\n"),
+  (R, _BIND, "    def _collect_resources(self, route, app):\n        def of(obj):\n            return getattr(obj, 'resources', {})\n"
+             "        self.resources = dict(of(app))\n        self.resources.update(of(route))\n\n"
+             "    def refresh(self, app):\n        self._collect_resources(self.unbound_route, app)\n\n" + _BIND))
